@@ -180,6 +180,13 @@ fn candidates(w: &World, p: &Plan) -> Vec<(World, Plan)> {
         out.push((c, p.clone()));
     }
     for i in 0..w.files.len() {
+        if w.files[i].was_symlink {
+            let mut c = w.clone();
+            c.files[i].was_symlink = false;
+            out.push((c, p.clone()));
+        }
+    }
+    for i in 0..w.files.len() {
         if w.files[i].no_final_newline {
             let mut c = w.clone();
             c.files[i].no_final_newline = false;
